@@ -516,7 +516,7 @@ func registerIntrinsics(in *Interp) {
 	for name, f := range map[string]func(uint64) int{
 		"math/bits.TrailingZeros64": bits.TrailingZeros64, "math/bits.Len64": bits.Len64, "math/bits.OnesCount64": bits.OnesCount64,
 		"math/bits.LeadingZeros64": bits.LeadingZeros64,
-		"math/bits.TrailingZeros":   func(x uint64) int { return bits.TrailingZeros64(x) }, "math/bits.Len": func(x uint64) int { return bits.Len64(x) },
+		"math/bits.TrailingZeros":  func(x uint64) int { return bits.TrailingZeros64(x) }, "math/bits.Len": func(x uint64) int { return bits.Len64(x) },
 		"math/bits.OnesCount": func(x uint64) int { return bits.OnesCount64(x) }, "math/bits.LeadingZeros": func(x uint64) int { return bits.LeadingZeros64(x) },
 		"math/bits.Len32": func(x uint64) int { return bits.Len32(uint32(x)) }, "math/bits.TrailingZeros32": func(x uint64) int { return bits.TrailingZeros32(uint32(x)) },
 		"math/bits.LeadingZeros32": func(x uint64) int { return bits.LeadingZeros32(uint32(x)) }, "math/bits.OnesCount32": func(x uint64) int { return bits.OnesCount32(uint32(x)) },
